@@ -9,6 +9,7 @@ import SkNet.Lemmas.Labels
 import SkNet.Lemmas.Sort
 import SkNet.Lemmas.CutExact
 import SkNet.Lemmas.Aggregate
+import SkNet.Lemmas.Reorder
 
 namespace SkNet.C08
 open SkNet SkNet.Dendro SkNet.Cut
@@ -427,5 +428,153 @@ theorem aggregate_valid {D : Dendro α} {n k : Nat} (hv : ValidDendro n D = true
 example : ValidDendro 5 ([⟨0, 1, 1, 2⟩, ⟨2, 3, 2, 2⟩, ⟨4, 5, 3, 3⟩, ⟨6, 7, 4, 5⟩] : Dendro Nat) = true ∧
     (aggregateDendrogram ([⟨0, 1, 1, 2⟩, ⟨2, 3, 2, 2⟩, ⟨4, 5, 3, 3⟩, ⟨6, 7, 4, 5⟩] : Dendro Nat) 3 true).toOption.map
       (fun o => (o.dendro, o.counts)) = some ([⟨0, 1, 3, 3⟩, ⟨2, 3, 4, 5⟩], some [1, 2, 2]) := by decide
+
+
+/-! ### cut_straight with `return_dendrogram=True`: the reordering does not change the tree -/
+
+section straightReordered
+variable [LinearOrder α]
+
+/-- in a valid dendrogram sorted by height, heights never decrease towards the root -/
+theorem monoPaths_of_sorted {n : Nat} {D : Dendro α} (hv : ValidDendro n D = true) (hs : heightsSorted D = true) :
+    MonoPaths n D = true := by
+  have hst := static_of_valid (w := List.replicate n 1) hv
+  have hn : (List.replicate n 1).length = n := by simp
+  -- sortedness as a statement on positions
+  have hpos : ∀ (a b : Nat) (ra rb : Row α), a ≤ b → D[a]? = some ra → D[b]? = some rb → ¬ rb.h < ra.h := by
+    intro a b ra rb hab
+    induction b generalizing rb with
+    | zero =>
+      intro ha hb
+      have : a = 0 := by omega
+      subst this
+      rw [ha] at hb; cases hb
+      exact lt_irrefl _
+    | succ b ih =>
+      intro ha hb
+      by_cases e : a = b + 1
+      · subst e; rw [ha] at hb; cases hb; exact lt_irrefl _
+      · have hbl : b + 1 < D.length := (List.getElem?_eq_some_iff.mp hb).1
+        have hb' : D[b]? = some D[b] := List.getElem?_eq_getElem (by omega)
+        have h1 := ih D[b] (by omega) ha hb'
+        -- consecutive rows
+        have h2 : ¬ rb.h < D[b].h := by
+          unfold heightsSorted at hs
+          have hmem : (D[b], rb) ∈ D.zip (D.drop 1) := by
+            rw [List.mem_iff_getElem?]
+            refine ⟨b, ?_⟩
+            rw [List.getElem?_zip_eq_some]
+            refine ⟨hb', ?_⟩
+            rw [List.getElem?_drop, Nat.add_comm]; exact hb
+          have := (List.all_eq_true.mp hs) _ hmem
+          simpa using this
+        exact fun hlt => h2 (lt_of_lt_of_le hlt (not_lt.mp h1))
+  unfold MonoPaths
+  rw [List.all_eq_true]
+  intro r hr
+  obtain ⟨t, ht, hrt⟩ := List.getElem_of_mem hr
+  have hrg : D[t]? = some r := by rw [List.getElem?_eq_getElem ht, hrt]
+  have hb := hst.bound t r hrg
+  rw [hn] at hb
+  simp only [Bool.and_eq_true]
+  constructor
+  · by_cases hi : r.i < n
+    · simp [hi]
+    · have hc : r.i - n < D.length := by omega
+      have := hpos (r.i - n) t D[r.i - n] r (by omega) (List.getElem?_eq_getElem hc) hrg
+      simp [hi, List.getElem?_eq_getElem hc, this]
+  · by_cases hj : r.j < n
+    · simp [hj]
+    · have hc : r.j - n < D.length := by omega
+      have := hpos (r.j - n) t D[r.j - n] r (by omega) (List.getElem?_eq_getElem hc) hrg
+      simp [hj, List.getElem?_eq_getElem hc, this]
+
+/-- **cut_straight on a valid dendrogram whose heights never decrease towards the root, any options**
+    (in particular `return_dendrogram=True`, which reorders first): the clusters are leaf sets of subtrees *of the
+    dendrogram that was given* (the reordering renames the nodes but keeps every leaf list), every merge strictly
+    below the threshold is applied, and with distinct heights and no threshold there are exactly `n_clusters`
+    clusters. -/
+theorem cutStraight_valid_input {D0 : Dendro α} {nc : Option Nat} {thr : Option α} {srt retD : Bool}
+    {argsort : List Nat → List Nat} (hs : SortsDesc argsort) {out : CutOut α}
+    (hv : ValidDendro (D0.length + 1) D0 = true) (hm : MonoPaths (D0.length + 1) D0 = true)
+    (h : cutStraight D0 nc thr srt retD argsort = .ok out) :
+    ∃ cl : List (List Nat), cl.flatten.Perm (List.range (D0.length + 1)) ∧
+      (∀ c ∈ cl, c ≠ [] ∧ ∃ x, x < D0.length + 1 + D0.length ∧ c = leaves (D0.length + 1) D0 x) ∧
+      out.labels.length = D0.length + 1 ∧
+      (∀ p c, cl[p]? = some c → ∀ v ∈ c, out.labels.getD v 0 = p) ∧
+      (srt = true → cl.Pairwise (fun a b => b.length ≤ a.length)) ∧
+      (thr = none → DistinctHeights D0 = true → cl.length = nc.getD 2) := by
+  obtain ⟨D, hD, hex⟩ := cutStraight_exact hs h
+  rcases hD with e | e
+  · subst e
+    obtain ⟨cl, hsub, _, hcount⟩ := hex hv hm
+    exact ⟨cl, hsub.partition, hsub.subtree, hsub.length, hsub.label, hsub.sorted, hcount⟩
+  · -- the dendrogram that is cut is the reordering of the given one
+    obtain ⟨D', hD', hvD', hsD', hleaves, hrows⟩ := reorder_valid_core hv hm
+    rw [e] at hD'
+    cases hD'
+    have hlenD : D.length = D0.length := reorderDendrogram_length e
+    have hmD := monoPaths_of_sorted hvD' hsD'
+    obtain ⟨cl, hsub, _, hcount⟩ := hex hvD' hmD
+    refine ⟨cl, hsub.partition, ?_, hsub.length, hsub.label, hsub.sorted, ?_⟩
+    · intro c hc
+      obtain ⟨hne, x, hx, rfl⟩ := hsub.subtree c hc
+      refine ⟨hne, ?_⟩
+      -- x is the new name of some node y of the given dendrogram
+      rw [hlenD] at hx
+      by_cases hxn : x < D0.length + 1
+      · refine ⟨x, hx, ?_⟩
+        have := hleaves x hx
+        have e1 : indexNewOf D0 x = x := by unfold indexNewOf; simp [hxn]
+        rw [e1] at this; exact this
+      · -- x = n + p, p a position of the sorted order
+        have hp : x - (D0.length + 1) < (lexsortIdx D0).length := by
+          rw [(lexsortIdx_perm D0).length_eq]; simp; omega
+        let t := (lexsortIdx D0)[x - (D0.length + 1)]
+        have ht : t < D0.length := mem_lexsortIdx.mp (List.getElem_mem hp)
+        refine ⟨D0.length + 1 + t, by omega, ?_⟩
+        have := hleaves (D0.length + 1 + t) (by omega)
+        have e1 : indexNewOf D0 (D0.length + 1 + t) = x := by
+          unfold indexNewOf posOf
+          have : ¬ (D0.length + 1 + t < D0.length + 1) := by omega
+          simp only [this, if_false, Nat.add_sub_cancel_left]
+          rw [idxOf_of_getElem (nodup_lexsortIdx D0) (List.getElem?_eq_getElem hp)]
+          omega
+        rw [e1] at this; exact this
+    · intro hthr hdist
+      refine hcount hthr ?_
+      -- the reordered dendrogram has the same heights, hence distinct ones
+      unfold DistinctHeights at hdist ⊢
+      rw [List.all_eq_true] at hdist ⊢
+      intro a ha
+      rw [List.all_eq_true]
+      intro b hb
+      rw [List.mem_range, hlenD] at ha hb
+      by_cases hab : a = b
+      · simp [hab]
+      · -- rows a and b of D come from distinct rows of D0
+        have hpa : a < (lexsortIdx D0).length := by rw [(lexsortIdx_perm D0).length_eq]; simpa using ha
+        have hpb : b < (lexsortIdx D0).length := by rw [(lexsortIdx_perm D0).length_eq]; simpa using hb
+        obtain ⟨ra, hra, hga⟩ := reorder_get (List.getElem?_eq_getElem hpa)
+        obtain ⟨rb, hrb, hgb⟩ := reorder_get (List.getElem?_eq_getElem hpb)
+        have hta := mem_lexsortIdx.mp (List.getElem_mem hpa)
+        have htb := mem_lexsortIdx.mp (List.getElem_mem hpb)
+        have hne : (lexsortIdx D0)[a] ≠ (lexsortIdx D0)[b] := by
+          intro e'
+          have h1 := idxOf_of_getElem (nodup_lexsortIdx D0) (List.getElem?_eq_getElem hpa)
+          have h2 := idxOf_of_getElem (nodup_lexsortIdx D0) (List.getElem?_eq_getElem hpb)
+          rw [e'] at h1; omega
+        have h1 := hdist _ (List.mem_range.mpr hta)
+        have h2 := (List.all_eq_true.mp h1) _ (List.mem_range.mpr htb)
+        have hbne : ((lexsortIdx D0)[a] == (lexsortIdx D0)[b]) = false := by simpa using hne
+        simp only [hbne, Bool.false_or, hra, hrb] at h2
+        have hDeq := reorder_eq e
+        have hDa : D[a]? = some (renameRow D0 ra) := by rw [hDeq]; exact hga
+        have hDb : D[b]? = some (renameRow D0 rb) := by rw [hDeq]; exact hgb
+        have habf : (a == b) = false := by simpa using hab
+        simp only [habf, Bool.false_or, hDa, hDb]
+        exact h2
+
+end straightReordered
 
 end SkNet.C08
